@@ -163,7 +163,7 @@ EditsOf(kind) ==
     [] kind = "ReplaceCovByStdev" -> {[k |-> "ReplaceCovByStdev"]}
     [] kind = "AttachHeights" -> {[k |-> "AttachHeights", s |-> s] : s \in 1..4}     \* 1: instrument heights, 2: both, 3: small target heights only, 4: small instrument heights only
     [] kind = "MakeFree" -> {[k |-> "MakeFree", s |-> s] : s \in 1..6}
-    [] kind = "Isolate" -> {[k |-> "Isolate", s |-> s] : s \in 1..4}      \* 1, 2: sight in the first quadrant (2: with a height difference); 3, 4: second / fourth quadrant
+    [] kind = "Isolate" -> {[k |-> "Isolate", s |-> s] : s \in 1..5}      \* 1, 2: sight in the first quadrant (2: with a height difference); 3, 4: second / fourth quadrant; 5: the single element is an angle whose foresight is the new point
     [] kind = "InputFeatures" -> {[k |-> "InputFeatures", s |-> s] : s \in 1..7}
          \* optional forms of the input language: 1 a <coordinates> cluster with one point observed in x,y only followed by another observed in z only,
          \* 2 <dh> with dist and stdev, 3 <dh> with dist only, 4 directions with from_dh / to_dh, 5 extern attributes, 6 angles with from_dh / bs_dh / fs_dh, 7 latitude, ellipsoid, algorithm and cov-band in <parameters>
@@ -223,7 +223,7 @@ Applicable(e) ==
                                 /\ (e.s \in {2, 3} => net.t \in {"lev1d", "freelev1d", "polar3d", "vec3d", "vecmix3d"})
                                 /\ (e.s = 4 => net.t \in {"tri2d", "polar3d", "fstat3d", "fstat2d"})
                                 /\ (e.s = 6 => net.t \in {"tri2d", "trav2d"}))
-  /\ (e.k = "Isolate" => net.t \in {"tri2d", "dist2d", "polar3d"})
+  /\ (e.k = "Isolate" => net.t \in {"tri2d", "dist2d", "polar3d"} /\ (e.s = 5 => net.t \in {"tri2d", "dist2d"}))
   /\ (e.k = "ChangeDatum" => net.t \in FreeTemplates)
   /\ (e.k = "AddConsistentObs" => net.noise = 0)
   /\ (e.k = "OmitApprox" => net.noise = 0 /\ net.t \notin FreeTemplates)
